@@ -1,10 +1,125 @@
 /-
-  TwProofs.C20 — property theorems (see DESIGN.md, section 6).
+  TwProofs.C20 — custom functions: unique registration, faithful conversion.
 -/
 import TwModel
-import TwSpec
 
 namespace Tw.C20
 open Tw
+
+abbrev Reg := VType × Bytes × Nat
+
+def lookupReg (cs : List ((VType × Bytes) × Nat)) (ty : VType) (n : Bytes) : Option Nat :=
+  (cs.find? fun p => p.1.1 == ty && p.1.2 == n).map (·.2)
+
+/-- a sequence of `Register*Func` calls -/
+def registerAll (w : World) : List Reg → World
+  | [] => w
+  | (ty, n, fid) :: r => registerAll (registerFunc w ty n fid).1 r
+
+/-- the function of the first registration of (type, name) in the sequence -/
+def firstReg (regs : List Reg) (ty : VType) (n : Bytes) : Option Nat :=
+  (regs.find? fun r => r.1 == ty && r.2.1 == n).map (·.2.2)
+
+theorem lookupReg_append (cs : List ((VType × Bytes) × Nat)) (x : (VType × Bytes) × Nat) (ty : VType) (n : Bytes) :
+    lookupReg (cs ++ [x]) ty n =
+      match lookupReg cs ty n with
+      | some f => some f
+      | none => if x.1.1 == ty && x.1.2 == n then some x.2 else none := by
+  unfold lookupReg
+  rw [List.find?_append]
+  cases h : cs.find? (fun p => p.1.1 == ty && p.1.2 == n) with
+  | some p => simp
+  | none =>
+    simp only [Option.none_or, Option.map_none]
+    by_cases hx : (x.1.1 == ty && x.1.2 == n) = true
+    · simp [List.find?, hx]
+    · simp [List.find?, hx]
+
+/-- registering succeeds exactly when the name is new for that type; a failed attempt changes
+    nothing -/
+theorem register_once (w : World) (ty : VType) (n : Bytes) (fid : Nat) :
+    (lookupReg w.custom ty n = none → (registerFunc w ty n fid).2 = none ∧
+        (registerFunc w ty n fid).1.custom = w.custom ++ [((ty, n), fid)]) ∧
+    (lookupReg w.custom ty n ≠ none → (registerFunc w ty n fid).2 ≠ none ∧ (registerFunc w ty n fid).1 = w) := by
+  unfold registerFunc lookupReg
+  cases h : w.custom.find? (fun p => p.1.1 == ty && p.1.2 == n) with
+  | none => simp
+  | some p => simp
+
+/-- **first writer wins**: after any sequence of registrations, the function found for
+    (type, name) is the one already present, or else the one of the *first* registration of that
+    (type, name) in the sequence; later attempts never replace it, and registrations for other
+    types or names do not interfere -/
+theorem register_first_wins (regs : List Reg) : ∀ (w : World) (ty : VType) (n : Bytes),
+    lookupReg (registerAll w regs).custom ty n =
+      match lookupReg w.custom ty n with
+      | some f => some f
+      | none => firstReg regs ty n := by
+  induction regs with
+  | nil => intro w ty n; simp [registerAll, firstReg]; cases lookupReg w.custom ty n <;> rfl
+  | cons r rest ih =>
+    intro w ty n
+    obtain ⟨rty, rn, rfid⟩ := r
+    simp only [registerAll]
+    rw [ih]
+    obtain ⟨hnew, hold⟩ := register_once w rty rn rfid
+    by_cases hpres : lookupReg w.custom rty rn = none
+    · obtain ⟨_, hc⟩ := hnew hpres
+      rw [hc, lookupReg_append]
+      cases hl : lookupReg w.custom ty n with
+      | some f => rfl
+      | none =>
+        simp only [firstReg, List.find?]
+        by_cases hx : (rty == ty && rn == n) = true
+        · simp [hx]
+        · simp [hx]
+    · obtain ⟨_, hw⟩ := hold hpres
+      rw [hw]
+      cases hl : lookupReg w.custom ty n with
+      | some f => rfl
+      | none =>
+        -- the attempt was for another (type, name): it cannot be the first registration of (ty, n)
+        have hx : (rty == ty && rn == n) = false := by
+          cases hb : (rty == ty && rn == n) with
+          | false => rfl
+          | true =>
+            simp only [Bool.and_eq_true, beq_iff_eq] at hb
+            obtain ⟨h1, h2⟩ := hb
+            subst h1; subst h2
+            exact absurd hl hpres
+        simp [firstReg, List.find?, hx]
+
+/-- starting from the initial state (no custom functions): the registered function is the one of
+    the first registration -/
+theorem register_first_wins_initial (regs : List Reg) (fs : Fs) (ty : VType) (n : Bytes) :
+    lookupReg (registerAll { fs := fs } regs).custom ty n = firstReg regs ty n := by
+  rw [register_first_wins]; rfl
+
+/-- the evaluator finds exactly the registered function (`lookupCustom` = registry lookup) -/
+theorem evaluator_uses_registry (c : Ctx) (ty : VType) (n : Bytes) : lookupCustom c ty n = lookupReg c.custom ty n := rfl
+
+/-- a built-in name takes precedence over a custom function of the same name: the evaluator
+    consults the custom registry only when `callBuiltin` has no function of that name -/
+theorem builtin_before_custom (fuel : Nat) (c : Ctx) (env : Env) (t : Token) (recv : Expr) (fn : Bytes) (rv v : Val)
+    (hrecv : evalExpr (fuel + 1) c env recv = .ok rv) (htab : hasBuiltinTable rv.type = true)
+    (hb : callBuiltin rv fn [] = some (.ok v)) :
+    evalExpr (fuel + 2) c env (.call t recv fn []) = .ok v := by
+  rw [show fuel + 2 = (fuel + 1) + 1 from rfl, evalExpr]
+  simp [hrecv, htab, evalExprs, hb]
+
+/-- calling an unregistered name is an error naming the function and the receiver type -/
+theorem unregistered_error (fuel : Nat) (c : Ctx) (env : Env) (t : Token) (recv : Expr) (fn : Bytes) (rv : Val)
+    (hrecv : evalExpr (fuel + 1) c env recv = .ok rv) (htab : hasBuiltinTable rv.type = true)
+    (hb : callBuiltin rv fn [] = none) (hc : lookupCustom c rv.type fn = none) :
+    evalExpr (fuel + 2) c env (.call t recv fn []) = .err "ErrNoFuncForThisType" t.errorLine [fn, rv.typeName] := by
+  rw [show fuel + 2 = (fuel + 1) + 1 from rfl, evalExpr]
+  simp [hrecv, htab, evalExprs, hb, hc]
+
+/-! non-vacuity -/
+
+example : lookupReg (registerAll {} [(.STRING, b "f", 0), (.INTEGER, b "f", 1), (.STRING, b "f", 1)]).custom .STRING (b "f") = some 0 := by
+  decide
+example : lookupReg (registerAll {} [(.STRING, b "f", 0), (.INTEGER, b "f", 1), (.STRING, b "f", 1)]).custom .INTEGER (b "f") = some 1 := by
+  decide
 
 end Tw.C20
